@@ -3,6 +3,7 @@
    specification is Lex/Deriv.v (C09). *)
 From Coq Require Import List ZArith Bool.
 From TM Require Import Lex.Tables Lex.Scan Lex.LexerRT Lex.LexerRT_proofs Lex.LexerMaps Lex.LexerMaps_proofs Lex.LexerMaps_proofs2.
+From TM Require Import Lex.LexerWf Lex.LexerWf_proofs Lex.Deriv Lex.DerivSem Lex.Bisim Lex.LexerSpec Lex.LexerSpec_proofs.
 Import ListNotations.
 Local Open Scope Z_scope.
 
@@ -66,9 +67,82 @@ Theorem C11_rune_class_lookup : forall m ch, sorted_map m -> 0 <= ch ->
   rune_class (rune_tables_of m) ch = lookup_sym m ch.
 Proof. exact rune_class_lookup. Qed.
 
-(* NOT proved: next_spec (LexerRT.next_tok = token of the regex-level specification); both streams are compared on
-   every run.  The models symbol_arr / compressed_map are compared with lex.Tables.SymbolArr / CompressedMap for the
-   tables of every generated lexer and for thousands of synthetic maps per run. *)
+(* ---- next_spec ----
+   Specification (Lex/LexerSpec.v, nothing in it looks at the tables): spec_attempt at offset pos runs Deriv.spec_scan
+   (C09: the longest candidate matched by an active rule, the rule of highest precedence / the earliest among equals;
+   else action 0 with the extent of the longest viable prefix) on the REST of the source and answers (token, space?, end):
+   no match -> invalid_token over the viable prefix, over one character if that is empty, end-of-input (token 0, empty)
+   at the end of the source; match -> the rule's action, specialised by the keyword table when it is a class action,
+   mapped to its token, and whether it is a space action.  spec_next repeats attempts while they are space;
+   spec_all is the stream up to the first end-of-input token.
+   Layer (a), the bridge: for EVERY lexer accepted by wf_lexer_tables whose tables pass the validator check_tables of
+   C09, every valid start condition and EVERY consistent lexer state l: one run of the generated DFA loop from the start
+   state (l.ch, checkpoint cells with backup of rule/offset/hash, end-of-input moves) is the reference run
+   Scan.longest_accept of C09 on the rest of the source — `outcome` reads the final stop cell and the backup the way
+   handleInvalidToken does — and the hash register is the hash of the symbols consumed (thash), also in the backup. *)
+Theorem C11_dfa_loop_is_longest_accept : forall lx sc l st l2 h2 b2,
+  wf_lexer_tables lx = true -> check_tables (lx_tables lx) = true ->
+  In (nthZ (state_map (lx_tables lx)) sc) (state_map (lx_tables lx)) -> linv lx l ->
+  dfa_loop (inner lx l) lx (nthZ (state_map (lx_tables lx)) sc) (tok_start l) 0 None = Some (st, l2, h2, b2) ->
+  longest_accept (lx_tables lx) sc (skipn (Z.to_nat (l_off l)) (l_src l)) = outcome lx (l_off l) st (l_off l2) b2 /\
+  st < 0 /\ l_off l <= l_off l2 /\
+  h2 = thash (scan_bytes (lx_tables lx)) (l_src l) (l_off l) (l_off l2 - l_off l) /\
+  match b2 with
+  | Some (a, o, hh) => l_off l <= o <= l_off l2 /\ hh = thash (scan_bytes (lx_tables lx)) (l_src l) (l_off l) (o - l_off l) /\ a <> 0
+  | None => True
+  end.
+Proof. exact attempt_is_longest_accept. Qed.
+
+(* Layers (b)-(c), Next.  For EVERY lexer that carries tmToken (rule-token mode: lexer actions are rule numbers),
+   is accepted by wf_lexer_tables, check_tables and kw_targets_ok (no keyword specialises to the "no match" action)
+   — all three boolean, evaluated on real tables —, whose tables are CERTIFIED against the rule set for the start condition
+   (reference run = Deriv.spec_scan on every text of bytes; what C09's check_bisim = 0 establishes), and EVERY
+   consistent lexer state: Next returns (fuel never runs out) and the token, its start and its end are exactly
+   spec_next's; and the bytes skipped before the token are a concatenation of matches of space rules (see C12).
+   The keyword specialisation is stated through the generated switch itself applied to the hash of the matched
+   symbols (kwf_switch); C11_keyword_switch_* above say what the switch selects. *)
+Theorem C11_next_is_specified_token : forall lx sc rules l,
+  wf_lexer_tables lx = true -> check_tables (lx_tables lx) = true -> kw_targets_ok lx = true -> lx_rule_token lx <> [] ->
+  In (nthZ (state_map (lx_tables lx)) sc) (state_map (lx_tables lx)) ->
+  certified (lx_tables lx) sc rules -> linv lx l ->
+  exists tok l', next_tok (next_fuel l) lx sc l = Some (tok, l') /\
+    spec_next (next_fuel l) lx (kwf_switch lx) (fun a => a) rules (l_src l) (l_off l) = Some (tok, l_tokoff l', l_off l') /\
+    space_gap lx (kwf_switch lx) (fun a => a) rules (l_src l) (l_off l) (l_tokoff l').
+Proof. exact next_is_specified_token. Qed.
+
+(* the hypothesis `certified` is what the certificate checker of C09 establishes *)
+Theorem C11_check_bisim_certifies : forall cap t rules sc, check_bisim cap t rules sc = 0 -> certified t sc rules.
+Proof. exact check_bisim_certified. Qed.
+
+(* Layer (d), the stream: from Init, the records (token, start, end) of Next's tokens up to the first end-of-input
+   token are exactly spec_all's, for every source of bytes (invalid UTF-8 included). *)
+Theorem C11_stream_is_specified : forall lx sc rules src,
+  wf_lexer_tables lx = true -> check_tables (lx_tables lx) = true -> kw_targets_ok lx = true -> lx_rule_token lx <> [] ->
+  In (nthZ (state_map (lx_tables lx)) sc) (state_map (lx_tables lx)) ->
+  certified (lx_tables lx) sc rules -> bytes_ok src ->
+  exists toks, lex_all (S (length src)) lx sc (LexerRT.init lx src) = Some toks /\
+    spec_all (S (length src)) lx (kwf_switch lx) (fun a => a) rules src 0 = Some (map obs3 toks).
+Proof. exact stream_is_specified. Qed.
+
+(* non-vacuity: tables of / +/ => rule 2 (space), /a/ => rule 3 as lex.Compile emits them, tmToken = [invalid; eoi; 2; 3] *)
+Definition ex_t : tables := mkTables false [(0, 1); (32, 2); (33, 1); (97, 3); (98, 1)] 4 [0] [-1; -1; 1; 2; -3; -3; 1; -3; -4; -4; -4; -4] [].
+Definition ex_rules : list srule := [(Rep 1 (-1) (Sym [(32, 32)]), 2, 0); (Sym [(97, 97)], 3, 0)].
+Definition ex_lexer : lexer := mkLexer ex_t [1; 0; 2; 3] [2] 1 [] [] true true.
+
+Example C11_next_hypotheses_met :
+  wf_lexer_tables ex_lexer = true /\ check_tables ex_t = true /\ kw_targets_ok ex_lexer = true /\ check_bisim 100 ex_t ex_rules 0 = 0 /\
+  lex_all 6 ex_lexer 0 (LexerRT.init ex_lexer [32; 97; 32; 32; 98; 97]) =
+    Some [[3; 1; 2; 1; 2]; [1; 4; 5; 1; 5]; [3; 5; 6; 1; 6]; [0; 6; 6; 1; 7]] /\
+  spec_all 7 ex_lexer (kwf_switch ex_lexer) (fun a => a) ex_rules [32; 97; 32; 32; 98; 97] 0 = Some [(3, 1, 2); (1, 4, 5); (3, 5, 6); (0, 6, 6)].
+Proof. vm_compute. repeat split; reflexivity. Qed.
+
+(* NOT proved: the same for lexers with INLINED rule actions (lx_rule_token = []: compiler/lexer.go renames the stop cells
+   and checkpoint actions of lex.Compile's tables to token numbers, so check_tables / check_bisim speak about the tables
+   before the renaming), and the keyword specialisation stated as "the action listed for exactly the matched text"
+   (kwf_spec: needs the recorded hash of a key = the hash of its symbols, false in scanBytes mode for non-ASCII keys,
+   known finding bytes-mode-non-ascii-keyword).  Both streams are compared on every run.  The models symbol_arr /
+   compressed_map are compared with lex.Tables.SymbolArr / CompressedMap for the tables of every generated lexer and for
+   thousands of synthetic maps per run. *)
 
 Example C11_maps_example :
   let m := [(0, 1); (65, 2); (91, 1); (3000, 3); (3001, 1); (70000, 4); (70010, 1)] in
@@ -90,3 +164,7 @@ Print Assumptions C11_rune_class_lookup_array.
 Print Assumptions C11_map_rune_finds_the_range.
 Print Assumptions C11_compressed_map_lookup.
 Print Assumptions C11_rune_class_lookup.
+Print Assumptions C11_dfa_loop_is_longest_accept.
+Print Assumptions C11_next_is_specified_token.
+Print Assumptions C11_check_bisim_certifies.
+Print Assumptions C11_stream_is_specified.
